@@ -14,6 +14,7 @@ import (
 	"github.com/anz-bank/sysl/pkg/parse"
 	"github.com/anz-bank/sysl/pkg/pbutil"
 	"github.com/anz-bank/sysl/pkg/sysl"
+	"github.com/anz-bank/sysl/pkg/syslutil"
 
 	"github.com/anz-bank/golden-retriever/pkg/gitfs"
 	"github.com/anz-bank/golden-retriever/reader/remotefs"
@@ -231,6 +232,15 @@ func (r *cmdRunner) loadFromStdin(stdin io.Reader, fs afero.Fs, logger *logrus.L
 	fs = afero.NewCopyOnWriteFs(fs, afero.NewMemMapFs())
 	for _, f := range stdinFiles {
 		r.modules = append(r.modules, f.Path)
+		if r.Root != "" {
+			// With a project root the paths are those of modules of the project: relative to the root, like module
+			// arguments, and confined to it. Placing the content through the rooted filesystem puts it exactly where
+			// the loader will look for it, and refuses a path that leaves the root before anything outside is touched.
+			if err := afero.WriteFile(syslutil.NewChrootFs(fs, r.Root), f.Path, []byte(f.Content), os.ModePerm); err != nil {
+				return nil, err
+			}
+			continue
+		}
 		absPath, err := filepath.Abs(f.Path)
 		if err != nil {
 			return nil, err
